@@ -47,6 +47,11 @@ func VxC05() {
 		vxTicks(1, 2, 3)
 	case 8:
 		vxAssert(Mixed(i, s, e) == "<"+s+"|"+strconv.Itoa(i)+"|"+e.Error()+">", "mixed interpolation differs from its concatenation")
+	case 10:
+		vxAssert(Blanks(s, t) == s+" "+t, "a blank between two interpolations is lost")
+		vxAssert(LeadBlank(s) == " "+s+"\t"+s+" ", "blanks and tabs around interpolations are lost")
+		vxAssert(DollarBlank(i) == strconv.Itoa(i)+" $ "+strconv.Itoa(i), "blanks around $$ between interpolations are lost")
+		vxAssert(RawLines(s, t) == s+"\n"+t, "the line break between two interpolations of a raw string is lost")
 	case 9:
 		k := int64(i) * 1000003
 		vxAssert(Int64Part(k) == strconv.FormatInt(k, 10), "\"${i}\" of an int64 differs from strconv.FormatInt")
